@@ -47,6 +47,21 @@ EPS_PLANAR = "1/1000000000"
 FUDGES = [0.4, 1.0, 0.25, 0.7, 2.0, 1.5]
 
 
+FINDING_SHAPES = ("shared-resid-neighbour-crashes",)
+_OVERRIDE = None
+
+
+def enabled(shape):
+    """shapes of documented findings stay out of the default stream until known_findings.txt lists them
+    (or VERIF_C06_PROBE=<shape>|all asks for them); a replay carries its own setting"""
+    if _OVERRIDE is not None:
+        return shape in _OVERRIDE
+    probe = os.environ.get("VERIF_C06_PROBE", "")
+    if probe == "all" or shape in probe.split(","):
+        return True
+    return any(k["property"] == "C06" and k["shape"] == shape for k in common.load_known_findings())
+
+
 def v3(vec):
     return [rat_str(vec[0]), rat_str(vec[1]), rat_str(vec[2])]
 
@@ -136,7 +151,10 @@ def gen_molecule_spec(rng, thorough):
         if pairs:
             a, b = rng.choice(pairs)
             residues[b]["resid"] = residues[a]["resid"]
-            bonds = [bd for bd in bonds if bd[0] not in (a, b) and bd[2] not in (a, b)]
+            if not enabled("shared-resid-neighbour-crashes"):
+                # orient_template tells the residue's own atom from the neighbour's by resid and tracks built
+                # neighbours by resid: with bonded neighbours it raises (documented finding, gated)
+                bonds = [bd for bd in bonds if bd[0] not in (a, b) and bd[2] not in (a, b)]
             if rng.random() < 0.6:
                 # same atom names in both (think BB/SC1): each one's names are keys of the other's template
                 ta, tb = types[residues[a]["type"]], types[residues[b]["type"]]
@@ -259,7 +277,11 @@ def backmap_case(ctx, stream, replay, meta, fudge, via, np_seed):
                              pos=data["position"], resid=int(data["resid"]), atoms=atoms))
     if err is not None:
         def judge_err(_answers):
-            ctx.oracle_fail("backmap-raises", "Backmap raised %s on a valid molecule (%s)" % (err, replay), replay)
+            shape = "backmap-raises"
+            shared = len({r["resid"] for r in res_info}) < len(res_info)
+            if shared and meta.number_of_edges() and ("ref_resid" in err or "KeyError: 'position'" in err):
+                shape = "shared-resid-neighbour-crashes"
+            ctx.oracle_fail(shape, "Backmap raised %s on a valid molecule (%s)" % (err, replay), replay)
             ctx.case(None, stream=stream, outcome="raises")
         return [], judge_err
     angles = {node: ang for node, ang, _ in per_node}
@@ -451,7 +473,7 @@ def gen_backmap(ctx):
     for _ in range(ctx.budget(160, 6000)):
         seed = rng.randint(0, 10 ** 9)
         out.append(dict(stream="backmap", spec=gen_molecule_spec(random.Random(seed), ctx.thorough),
-                        np_seed=seed % 100000))
+                        np_seed=seed % 100000, probe=sorted(s for s in FINDING_SHAPES if enabled(s))))
     return out
 
 
@@ -474,12 +496,14 @@ def corpus_cases():
 
 
 def run_cases(ctx, replays):
+    global _OVERRIDE  # pylint: disable=global-statement
     reqs, judges = [], []
     for replay in replays:
+        _OVERRIDE = set(replay["probe"]) if "probe" in replay else None
         try:
             r, judge = make_case(ctx, replay)
-        except common.DriverError:
-            raise
+        finally:
+            _OVERRIDE = None
         reqs_start = len(reqs)
         reqs += r
         judges.append((judge, reqs_start, len(reqs)))
@@ -538,6 +562,8 @@ def run(ctx):
         "the optimiser (L-BFGS-B, random start angles) is an ORACLE: theorems hold for every angle triple, the "
         "check reads the angles it returned by interposing on backmap.rotate_xyz",
         "backmapping factor f > 0 for the sign of signed volumes (f^3 scaling is proved for every f)",
+        "documented findings kept out of the default stream until listed in known_findings.txt: "
+        + ", ".join(s for s in FINDING_SHAPES if not enabled(s)),
     ]
     ctx.extra["explanation"] = ("correspondence: rotate_xyz and _place_init_coords vs the Lean model on exact "
                                 "rationals (1e-9); oracle: Lean spec (centre, rigid by own atom name, handedness) on "
